@@ -213,8 +213,9 @@ def run_case(arg):
                         # skipped entries must be named
                         skipped = [nm for p, nm in raw.items() if b"/" not in p and (nm in (b".", b"..") or b"/" in nm)]
                         # (entries excluded by a type filter such as -L are not "skipped because of their name")
-                        if skipped and b"skipping" not in res.err and not set(opts) & {"-D", "-S", "-F", "-L", "-E"}:
-                            oc.violate("unpack:skipped-entry-not-reported", "hostile names %r but no 'skipping' message" % skipped[:3], {"image.sqfs": img, "stderr.txt": res.err})
+                        # ("reported" = something is said on stderr; the wording is the tool's business)
+                        if skipped and not res.err.strip() and not set(opts) & {"-D", "-S", "-F", "-L", "-E"}:
+                            oc.violate("unpack:skipped-entry-not-reported", "hostile names %r skipped without any message" % skipped[:3], {"image.sqfs": img, "stderr.txt": res.err})
                 else:
                     oc.inc("exit_nonzero")
                 shutil.rmtree(R, ignore_errors=True)
